@@ -1,6 +1,7 @@
 import SaphyrVerif.Spec.Interp
 import SaphyrVerif.Lemmas.C04
 import SaphyrVerif.Lemmas.C04_Capture
+import SaphyrVerif.Lemmas.C04_Loc
 /-!
 # C04 — duplicate-key policy is applied exactly, for keys of every YAML kind
 
@@ -119,6 +120,211 @@ example : (applyPolicy .firstWins [(kSeq .plain 1, .scalar ['1'] 0 none .plain 0
 example : fpOf (.scalar ['a'] 0 none .plain 0 1) = fpOf (.scalar ['a'] 0 none .double 7 9) := rfl
 example : (fpOf (.scalar ['a'] 0 none .plain 0 1) == fpOf (.scalar ['a'] 9 (some ['!','!','s','t','r']) .plain 0 1)) = false := by decide
 
+/-! ## Where the duplicate-key error of the Error policy is located
+
+`MA::next_key_seed`, live path (fix: the location used to be `key_node.location()`, which for a key written
+as an alias `*k` is the mark of the ANCHORED node — an earlier entry).  Now: `key_is_alias = ev.at_alias()`
+right after the look-ahead, and the error carries `ev.reference_location()` (read after the capture: the
+exhausted replay frame of the alias is still on the stack) when the flag is set, `key_node.location()`
+otherwise.  `Cur.atAlias` / `Cur.refLoc` transcribe the two `Events` methods. -/
+
+/-- the mark of the node the look-ahead shows AS WRITTEN at this position: the alias token when the position is
+written as an alias (`c1` = cursor after the look-ahead, `c2` = cursor after the node has been captured), the
+node's own mark (location of its first event) otherwise -/
+def keyWrittenAt (c1 c2 : Cur) (ev : Ev) : Loc := if c1.atAlias then c2.refLoc else ev.loc
+
+/-- (T) duplicate_error_at_use_site — clause "the Error policy fails with a duplicate-key error located at
+the repeated key".  For EVERY cursor (live pump in any state, recorded buffer), every map-access state with
+nothing pending and not flushing (`seen` = the keys of any number of earlier entries, any merges collected so
+far), every key shape (whatever `capture` returns: scalar, sequence, mapping), every key seed: when the
+look-ahead shows a node that is captured as a key which is not `<<` and whose fingerprint has been seen, the
+call fails with `DuplicateMappingKey` located at the key as written at THIS position (`keyWrittenAt`) and
+nowhere else — in particular not at `key.loc` of an alias key, which is the mark of the anchored node. What
+`keyWrittenAt` is on the cursors of the model is stated by `key_written_at_alias` (alias token),
+`key_written_at_parser_node` / `key_written_at_replayed` / `key_written_at_recorded` (own mark). -/
+theorem duplicate_error_at_use_site (fuel : Nat) (cfg : Cfg) (hpol : cfg.dup = .error) (ks : Ty ⊕ Unit)
+    (c c1 c2 : Cur) (m : MA) (hp : m.pending = []) (hf : m.flushingMerges = false)
+    (ev : Ev) (hpk : c.peek = .ok (some ev) c1) (hne : ∀ l, ev ≠ .mapEnd l)
+    (key : KeyNode) (hcap : capture fuel c1 = .ok key c2) (hmk : isMergeKey key = false)
+    (hdup : m.seenContains key.fp = true) :
+    nextKey (fuel + 1) cfg ks c m = .err ⟨"DuplicateMappingKey", keyWrittenAt c1 c2 ev, 0⟩ c2 := by
+  rw [C04Loc.nextKey_dup_error fuel cfg hpol ks c c1 c2 m hp hf ev hpk hne key hcap hmk hdup,
+    C04Loc.capture_loc_of_peek hpk hcap]
+  rfl
+
+/-- (T) the key position is written as an alias `*x` (token at `aloc`; nothing is being replayed, `x` is not
+being defined, its recorded buffer is the event list of a node `t` — C02 `alias_expansion_is_buffer`; any
+budget, any limits): if the look-ahead yields an event and the key is captured, `keyWrittenAt` is the ALIAS
+TOKEN `aloc`, while the captured key itself carries the anchored node's mark `t.loc`. -/
+theorem key_written_at_alias (p : Pump) (id : Nat) (aloc : Loc) (rest : List RawItem) (t : ENode)
+    (ev : Ev) (p' : Pump) (r : List RawItem)
+    (hl : p.look = none) (hi : p.inject = [])
+    (hrec : p.recStack.any (fun f => f.id == id) = false)
+    (hbuf : lookupAnchor p.anchors id = some (eflatten t))
+    (h : Pump.peek p (.ev (.alias id) aloc :: rest) = (.event ev, p', r))
+    (fuel : Nat) (key : KeyNode) (c2 : Cur) (hcap : capture fuel (.live p' r) = .ok key c2) :
+    keyWrittenAt (.live p' r) c2 ev = aloc ∧ key.loc = t.loc := by
+  obtain ⟨h0, hat, hfr⟩ := C04Loc.peek_alias p id aloc rest (eflatten t) ev p' r hl hi hrec hbuf
+    (C04.eflatten_length_pos t) h
+  refine ⟨?_, ?_⟩
+  · simp only [keyWrittenAt, hat, if_true]
+    exact C04Loc.capture_alias_refLoc t hfr hcap
+  · rw [C04Loc.capture_loc_of_peek (C16.live_peek_of _ _ _ _ _ h) hcap]
+    cases t <;> (simp only [eflatten, List.getElem?_cons_zero, Option.some.injEq] at h0; subst h0; rfl)
+
+/-- (T) the key position holds a node item of the parser (scalar / sequence start / mapping start at `loc`,
+nothing being replayed; any budget): `keyWrittenAt` is the node's own mark, which is the item's location. -/
+theorem key_written_at_parser_node (p : Pump) (raw : Raw) (loc : Loc) (rest : List RawItem)
+    (ev : Ev) (p' : Pump) (r : List RawItem) (hl : p.look = none) (hi : p.inject = [])
+    (hraw : (∃ v st a t, raw = .scalar v st a t) ∨ (∃ a t, raw = .seqStart a t) ∨ (∃ a t, raw = .mapStart a t))
+    (h : Pump.peek p (.ev raw loc :: rest) = (.event ev, p', r)) (c2 : Cur) :
+    keyWrittenAt (.live p' r) c2 ev = loc := by
+  have hnil : p'.inject = [] := by
+    have := C04Loc.peek_node_inject_nil p raw loc rest hl hi hraw
+    rw [h] at this; exact this
+  simp only [keyWrittenAt, C04Loc.atAlias_live_nil p' r hnil, Bool.false_eq_true, if_false]
+  exact C04Loc.peek_node_loc p raw loc rest ev p' r hl hi hraw h
+
+/-- (T) the key position lies INSIDE a subtree that is being replayed (top frame `fr` over the recorded buffer
+`buf`, not exhausted; `1 ≤ fr.idx` holds between any two pump calls, `C04Loc.peek_idxPos` / `next_idxPos`):
+`keyWrittenAt` is the own mark of the recorded event `buf[fr.idx]` — the definition-site mark of the key, not
+the alias token of the enclosing replay (which is what `reference_location()` answers there). -/
+theorem key_written_at_replayed (p : Pump) (inp : List RawItem) (fr : InjectFrame) (frs : List InjectFrame)
+    (buf : List Ev) (ev : Ev) (p' : Pump) (r : List RawItem)
+    (hl : p.look = none) (hi : p.inject = fr :: frs)
+    (hb : lookupAnchor p.anchors fr.anchorId = some buf) (hidx : fr.idx < buf.length) (hpos : 1 ≤ fr.idx)
+    (h : Pump.peek p inp = (.event ev, p', r)) (c2 : Cur) :
+    keyWrittenAt (.live p' r) c2 ev = ev.loc ∧ buf[fr.idx]? = some ev ∧ (Cur.live p' r).refLoc = fr.refLoc := by
+  obtain ⟨h1, h2, h3⟩ := C04Loc.peek_in_frame p inp fr frs buf ev p' r hl hi hb hidx hpos h
+  exact ⟨by simp [keyWrittenAt, h2], h1, h3⟩
+
+/-- (T) on a recorded buffer (keys of merged mappings, nested mappings inside a recorded key or a buffered /
+merged value; with or without use-site override): `keyWrittenAt` is the node's own mark. -/
+theorem key_written_at_recorded (buf : List Ev) (idx : Nat) (ref : Option Loc) (c2 : Cur) (ev : Ev) :
+    keyWrittenAt (.replay buf idx ref) c2 ev = ev.loc := rfl
+
+/-- (T) duplicate_error_at_written_token_partial — the two theorems above put together for a key TOKEN READ
+FROM THE PARSER (excluding hypothesis, visible: `p.inject = []`, the mapping is not itself inside a subtree
+that is being replayed): whether the repeated key is written out (`raw` a scalar / sequence / mapping start) or
+written as an alias `*x` of an earlier node, the error is located at `loc`, the location of that token. -/
+theorem duplicate_error_at_written_token_partial (fuel : Nat) (cfg : Cfg) (hpol : cfg.dup = .error) (ks : Ty ⊕ Unit)
+    (p : Pump) (raw : Raw) (loc : Loc) (rest : List RawItem) (m : MA)
+    (hp : m.pending = []) (hf : m.flushingMerges = false)
+    (hl : p.look = none) (hi : p.inject = [])
+    (hraw : (∃ v st a t, raw = .scalar v st a t) ∨ (∃ a t, raw = .seqStart a t) ∨ (∃ a t, raw = .mapStart a t) ∨
+      (∃ id t, raw = .alias id ∧ p.recStack.any (fun f => f.id == id) = false ∧
+        lookupAnchor p.anchors id = some (eflatten t)))
+    (ev : Ev) (p' : Pump) (r : List RawItem) (h : Pump.peek p (.ev raw loc :: rest) = (.event ev, p', r))
+    (hne : ∀ l, ev ≠ .mapEnd l)
+    (key : KeyNode) (c2 : Cur) (hcap : capture fuel (.live p' r) = .ok key c2) (hmk : isMergeKey key = false)
+    (hdup : m.seenContains key.fp = true) :
+    nextKey (fuel + 1) cfg ks (.live p (.ev raw loc :: rest)) m = .err ⟨"DuplicateMappingKey", loc, 0⟩ c2 := by
+  rw [duplicate_error_at_use_site fuel cfg hpol ks _ _ c2 m hp hf ev (C16.live_peek_of _ _ _ _ _ h) hne key hcap hmk hdup]
+  have hw : keyWrittenAt (.live p' r) c2 ev = loc := by
+    rcases hraw with hs | hs | hs | ⟨id, t, rfl, hrec, hbuf⟩
+    · exact key_written_at_parser_node p raw loc rest ev p' r hl hi (Or.inl hs) h c2
+    · exact key_written_at_parser_node p raw loc rest ev p' r hl hi (Or.inr (Or.inl hs)) h c2
+    · exact key_written_at_parser_node p raw loc rest ev p' r hl hi (Or.inr (Or.inr hs)) h c2
+    · exact (key_written_at_alias p id loc rest t ev p' r hl hi hrec hbuf h fuel key c2 hcap).1
+  rw [hw]
+
+/-- (T) the buffered path of `next_key_seed` (`if let Some(entry) = self.pending.pop_front()`, location
+`key.location()` of the recorded key) never reports an OWN entry: outside flushing the queue only ever holds the
+one entry the live path has just buffered for a one-entry-null-key mapping key, AFTER that key passed the
+duplicate check of the live path (`seen` is unchanged in between); for such an entry (`seenContains = false`,
+any policy) every error of the call is an error of deserializing the key itself.  (Entries that come from
+merges are delivered while flushing, where a repeated key is skipped, never reported.)  Hence the location rule
+of `duplicate_error_at_use_site` is the only one in force for duplicate reports. -/
+theorem pending_path_never_reports_fresh_entry (fuel : Nat) (cfg : Cfg) (ks : Ty ⊕ Unit) (c : Cur) (m : MA)
+    (entry : PendingEntry) (rest : List PendingEntry) (hp : m.pending = entry :: rest)
+    (hf : m.flushingMerges = false) (hnd : m.seenContains entry.key.fp = false)
+    (e : DErr) (c' : Cur) (h : nextKey (fuel + 1) cfg ks c m = .err e c') :
+    ∃ kev kemn, deserKey fuel cfg ks kev kemn = .error e := by
+  rw [nextKey] at h
+  simp only [hp] at h
+  have hnd' : m.seen.any (· == entry.key.fp) = false := hnd
+  simp only [hf, MA.seenContains, hnd', Bool.false_eq_true, if_false] at h
+  cases hd : cfg.dup <;> simp only [hd] at h <;>
+  (split at h
+   · rename_i x e0 hk
+     simp only [R.err.injEq] at h
+     exact ⟨_, _, by rw [hk, h.1]⟩
+   · cases h)
+
+/-- digest of a run: kind and the two locations of the error -/
+def errOf (r : R Val) : Option (String × Loc × Loc) :=
+  match r with
+  | .ok _ _ => none
+  | .err e _ => some (e.kind, e.loc, e.loc2)
+
+def locPump : Pump := { limits := ⟨1000, 8, 100⟩ }
+
+-- (E) non-vacuity, alias key whose anchor sits in an EARLIER entry, one entry in between:
+-- `&k a: 1` (key at 11) / `b: 2` / `*k : 3` (alias token at 15): the error is at 15, not at 11
+example : errOf (deser 40 {} (.map .string (.int true 32)) false false (.live locPump
+    [.ev .streamStart 10, .ev (.docStart false) 10, .ev (.mapStart 0 none) 10,
+     .ev (.scalar ['a'] .plain 1 none) 11, .ev (.scalar ['1'] .plain 0 none) 12,
+     .ev (.scalar ['b'] .plain 0 none) 13, .ev (.scalar ['2'] .plain 0 none) 14,
+     .ev (.alias 1) 15, .ev (.scalar ['3'] .plain 0 none) 16,
+     .ev .mapEnd 17, .ev .docEnd 17, .ev .streamEnd 17])) = some ("DuplicateMappingKey", 15, 0) := by
+  decide +kernel
+-- the anchor in an earlier entry's VALUE (`x: &k a` at 12), the first occurrence written out (`a: 1` at 13), the
+-- repeat written as the alias (`*k : 2` at 15); and the other way round (`*k : 1` at 13 first, `a: 2` at 15 repeats)
+example : errOf (deser 40 {} (.map .string .any) false false (.live locPump
+    [.ev .streamStart 10, .ev (.docStart false) 10, .ev (.mapStart 0 none) 10,
+     .ev (.scalar ['x'] .plain 0 none) 11, .ev (.scalar ['a'] .plain 1 none) 12,
+     .ev (.scalar ['a'] .plain 0 none) 13, .ev (.scalar ['1'] .plain 0 none) 14,
+     .ev (.alias 1) 15, .ev (.scalar ['2'] .plain 0 none) 16,
+     .ev .mapEnd 17, .ev .docEnd 17, .ev .streamEnd 17])) = some ("DuplicateMappingKey", 15, 0) := by
+  decide +kernel
+example : errOf (deser 40 {} (.map .string .any) false false (.live locPump
+    [.ev .streamStart 10, .ev (.docStart false) 10, .ev (.mapStart 0 none) 10,
+     .ev (.scalar ['x'] .plain 0 none) 11, .ev (.scalar ['a'] .plain 1 none) 12,
+     .ev (.alias 1) 13, .ev (.scalar ['1'] .plain 0 none) 14,
+     .ev (.scalar ['a'] .plain 0 none) 15, .ev (.scalar ['2'] .plain 0 none) 16,
+     .ev .mapEnd 17, .ev .docEnd 17, .ev .streamEnd 17])) = some ("DuplicateMappingKey", 15, 0) := by
+  decide +kernel
+-- a composite alias key: `&k [1, 2]: x` (sequence at 11) / `*k : z` (alias token at 16)
+example : errOf (deser 40 {} (.map (.tuple [.int true 32, .int true 32]) .string) false false (.live locPump
+    [.ev .streamStart 10, .ev (.docStart false) 10, .ev (.mapStart 0 none) 10,
+     .ev (.seqStart 1 none) 11, .ev (.scalar ['1'] .plain 0 none) 12, .ev (.scalar ['2'] .plain 0 none) 13, .ev .seqEnd 14,
+     .ev (.scalar ['x'] .plain 0 none) 15,
+     .ev (.alias 1) 16, .ev (.scalar ['z'] .plain 0 none) 17,
+     .ev .mapEnd 18, .ev .docEnd 18, .ev .streamEnd 18])) = some ("DuplicateMappingKey", 16, 0) := by
+  decide +kernel
+-- a written-out repeat keeps its own mark, and a written-out repeat INSIDE a replayed subtree keeps its
+-- definition-site mark: `<<: &m {a: 1, a: 2}` (second `a` at 15; merged, so not reported there) / `e: {V: *m}`
+-- (alias token at 21, struct-variant payload: no enclosing access rewrites the error): located at 15, not at 21
+example : errOf (deser 60 {} (.struct [("e", .enum "E" [("V", .struct [("a", .int true 32)])])] false) false false
+    (.live locPump
+    [.ev .streamStart 10, .ev (.docStart false) 10, .ev (.mapStart 0 none) 10,
+     .ev (.scalar "<<".toList .plain 0 none) 11, .ev (.mapStart 1 none) 12,
+     .ev (.scalar ['a'] .plain 0 none) 13, .ev (.scalar ['1'] .plain 0 none) 14,
+     .ev (.scalar ['a'] .plain 0 none) 15, .ev (.scalar ['2'] .plain 0 none) 16, .ev .mapEnd 17,
+     .ev (.scalar ['e'] .plain 0 none) 18, .ev (.mapStart 0 none) 19, .ev (.scalar ['V'] .plain 0 none) 20,
+     .ev (.alias 1) 21, .ev .mapEnd 22, .ev .mapEnd 23, .ev .docEnd 23, .ev .streamEnd 23])) =
+    some ("DuplicateMappingKey", 15, 0) := by
+  decide +kernel
+
+/-- (F) the remainder, on a witness: an alias key INSIDE a replayed subtree is still reported at the ANCHOR.
+`<<: &m {&k a: 1, *k : 2}` (anchored key `a` at 13, the alias token `*k` at 15; a merge source, so nothing is
+reported while it is read) / `e: {V: *m}` (alias token `*m` at 21).  While `*m` is replayed the recorded buffer
+of `m` holds the already expanded events of `*k` — the alias item is never recorded — so the second key arrives
+as the scalar `a` at 13 with `at_alias() = false`: the error is located at 13, the mark of the FIRST entry's key,
+neither at the token `*k` (15) nor at the use site (21).  (Same outcome in the implementation:
+`<<: &m {&k a: 1, *k : 2}\ne: {V: *m}\n` into a struct with an enum field reports line 1 column 12.) -/
+theorem duplicate_error_alias_key_in_replayed_subtree_counterexample :
+    errOf (deser 60 {} (.struct [("e", .enum "E" [("V", .struct [("a", .int true 32)])])] false) false false
+      (.live locPump
+      [.ev .streamStart 10, .ev (.docStart false) 10, .ev (.mapStart 0 none) 10,
+       .ev (.scalar "<<".toList .plain 0 none) 11, .ev (.mapStart 1 none) 12,
+       .ev (.scalar ['a'] .plain 2 none) 13, .ev (.scalar ['1'] .plain 0 none) 14,
+       .ev (.alias 2) 15, .ev (.scalar ['2'] .plain 0 none) 16, .ev .mapEnd 17,
+       .ev (.scalar ['e'] .plain 0 none) 18, .ev (.mapStart 0 none) 19, .ev (.scalar ['V'] .plain 0 none) 20,
+       .ev (.alias 1) 21, .ev .mapEnd 22, .ev .mapEnd 23, .ev .docEnd 23, .ev .streamEnd 23])) =
+      some ("DuplicateMappingKey", 13, 0) := by
+  decide +kernel
+
 #print axioms fp_beq_iff
 #print axioms fingerprint_eq_iff
 #print axioms capture_node_exact
@@ -128,5 +334,13 @@ example : (fpOf (.scalar ['a'] 0 none .plain 0 1) == fpOf (.scalar ['a'] 9 (some
 #print axioms last_wins_delivers_all
 #print axioms first_wins_is_delete_later
 #print axioms first_wins_keeps_first
+#print axioms duplicate_error_at_use_site
+#print axioms key_written_at_alias
+#print axioms key_written_at_parser_node
+#print axioms key_written_at_replayed
+#print axioms key_written_at_recorded
+#print axioms duplicate_error_at_written_token_partial
+#print axioms pending_path_never_reports_fresh_entry
+#print axioms duplicate_error_alias_key_in_replayed_subtree_counterexample
 
 end SaphyrVerif.Props.C04
